@@ -49,6 +49,34 @@ func min(a, b int) int {
 }
 
 // the standard battery for one (spec, value): pack, round trip with trailing bytes, re-pack, mutants
+// prefix + body(v1) + body(v2) of a tagged composite
+func doubledBody(n *gnode, v1, v2 *Sx) (out []byte) {
+	defer func() {
+		if recover() != nil {
+			out = nil
+		}
+	}()
+	body := func(v *Sx) []byte {
+		f := buildField(n.term)
+		applyVal(f, v)
+		b, err := f.Bytes()
+		if err != nil {
+			return nil
+		}
+		return b
+	}
+	b1, b2 := body(v1), body(v2)
+	if b1 == nil || b2 == nil || len(b1) == 0 || len(b2) == 0 {
+		return nil
+	}
+	sp := buildField(n.term).Spec()
+	pre, err := sp.Pref.EncodeLength(sp.Length, len(b1)+len(b2))
+	if err != nil {
+		return nil
+	}
+	return append(append(append([]byte(nil), pre...), b1...), b2...)
+}
+
 func emitFieldBattery(r *Rng, n *gnode, v *Sx, nmut int, emit func(*Sx)) {
 	packed := packedOf(n.term, v)
 	if packed == nil {
@@ -195,6 +223,20 @@ func init() {
 			n := genComp(r, 0)
 			for j := 0; j < 2; j++ {
 				emitFieldBattery(r, n, genValue(r, n), 4, emit)
+			}
+			// D. the same object used twice: what it held or unpacked before must not show after the second Unpack
+			v1, v2 := genValue(r, n), genValue(r, n)
+			p1, p2 := packedOf(n.term, v1), packedOf(n.term, v2)
+			if p1 != nil && p2 != nil {
+				emit(L(A("fld"), n.term, L(op("set", v1), op("pack"), op("unpack", X(p2)), op("get"), op("pack"))))
+				emit(L(A("fld"), n.term, L(op("unpack", X(p1)), op("get"), op("unpack", X(p2)), op("get"), op("pack"))))
+			}
+			// E. a tagged body in which every element occurs twice (the later occurrence wins; a nested composite is
+			// unpacked twice into the same object)
+			if n.mode == "tag" || n.mode == "ber" {
+				if d := doubledBody(n, v1, v2); d != nil {
+					emit(L(A("fld"), n.term, L(op("unpack", X(d)), op("get"), op("pack"))))
+				}
 			}
 		}
 	}
